@@ -40,7 +40,7 @@ class Ctx:
         self.seed = int(os.environ.get('VERIF_SEED', '0') or 0)
         self.rng = random.Random(self.seed * 1000003 + int(pid[1:]))
         self.t0 = time.time()
-        self.work = os.path.join(WORK, pid)
+        self.work = os.path.join(WORK, pid + os.environ.get('VERIF_WORK_SUFFIX', ''))
         shutil.rmtree(self.work, ignore_errors=True)
         os.makedirs(self.work, exist_ok=True)
         os.makedirs(REPLAYS, exist_ok=True)
